@@ -432,6 +432,36 @@ def install(eng):
 
     eng.method_models[(_re.Pattern, "match")] = Model("re.Pattern.match (single character)", re_match_one_char)
 
+    def re_search_char_class(eng, st, args, kw):
+        """pattern.search(s) for a pattern that is one character class (or literal): some character of s is in the class.
+        The class is read off the live pattern (sre parse tree must be a single IN / LITERAL item; its members are found
+        by running the pattern over every code point)."""
+        pat, s = args[0], args[1]
+        if isinstance(pat, SV):
+            ok_, obj_ = eng.unlift_const(pat.t)
+            pat = obj_ if ok_ else pat
+        if not isinstance(pat, _re.Pattern) or len(args) != 2:
+            raise Unsupported("regex search with a symbolic pattern / extra arguments")
+        if not isinstance(s, SV):
+            yield st, pat.search(s)
+            return
+        try:
+            import re._parser as _sre_parse  # Python >= 3.11
+        except ImportError:  # pragma: no cover
+            import sre_parse as _sre_parse
+        tree = _sre_parse.parse(pat.pattern, pat.flags)
+        if len(tree) != 1 or str(tree[0][0]) not in ("IN", "LITERAL"):
+            raise Unsupported(f"regex search with a pattern that is not a single character class: {pat.pattern!r}")
+        yes, no, empty = _single_char_matches(pat)
+        if yes is None:
+            raise Unsupported(f"regex search with a co-finite character class: {pat.pattern!r}")
+        st.assume(V.is_str(s.t))
+        sv = V.Val.s(s.t)
+        found = z3.Or(*[z3.Contains(sv, z3.StringVal(c)) for c in yes]) if yes else z3.BoolVal(False)
+        yield st, SV(z3.If(found, V.mk_bool(True), V.VNone))  # only the truth value of the match object is modelled
+
+    eng.method_models[(_re.Pattern, "search")] = Model("re.Pattern.search (one character class)", re_search_char_class)
+
     def _all_any(is_all):
         def fn(eng, st, args, kw):
             from .engine import lib_to_iter
